@@ -1,24 +1,31 @@
 #!/bin/bash
-# Runs every quick check against every stored seed (scratch worktrees; /repo is not touched) and records, in
-# seeded/<id>/meta.json, which properties' checks raise an alarm and through which rules.
+# usage: eval_all_seeds.sh [seed ids...]   (default: all)
+# Applies every stored seeded change in a scratch worktree of /repo (the repository itself is not touched), runs the
+# quick rules of all 19 properties against it (`rendlint alarms`: one load per seed) and records in
+# seeded/<id>/meta.json which properties' checks raise an alarm and through which obligations.
 cd /verif
-for d in seeded/*/; do
-  id=$(basename $d)
-  out=$(tools/eval_patch.sh /verif/$d/patch.diff "$@")
-  python3 - "$id" <<PY
-import json,sys,re
+BIN=${RENDLINT:-/verif/bin/rendlint}
+ids="$@"; [ -z "$ids" ] && ids=$(ls seeded)
+one() {
+  id=$1
+  wt=/tmp/wt/ev_$id
+  git -C /repo worktree remove --force $wt >/dev/null 2>&1
+  git -C /repo worktree add -q --detach $wt HEAD || { echo "$id worktree failed"; return; }
+  if ! git -C $wt apply /verif/seeded/$id/patch.diff; then echo "$id PATCH-DOES-NOT-APPLY"; git -C /repo worktree remove --force $wt; return; fi
+  $BIN alarms --repo $wt > /tmp/wt/ev_$id.json 2>/tmp/wt/ev_$id.err
+  git -C /repo worktree remove --force $wt
+  python3 - "$id" <<'PY'
+import json,sys
 sid=sys.argv[1]
-out='''$out'''
-det={}
-cur=None
-for l in out.splitlines():
-    m=re.match(r'ALARM (C\d+):',l)
-    if m: cur=m.group(1); det[cur]=[]; continue
-    m=re.match(r'\s+(VIOLATED|UNDECIDED) (R[\d.]+) (\S+)',l)
-    if m and cur: det[cur].append(m.group(2)+' '+m.group(3))
+det=json.load(open('/tmp/wt/ev_%s.json'%sid))
 p='/verif/seeded/%s/meta.json'%sid
-meta=json.load(open(p)); meta['detected_by']=det; meta['detected_by_own_property']= meta['property'] in det
+meta=json.load(open(p))
+meta['detected_by']={k:[x.split(': ')[0] for x in v] for k,v in det.items()}
+meta['detected_by_own_property']= meta['property'] in det
 json.dump(meta,open(p,'w'),indent=1)
 print(sid, 'own' if meta['property'] in det else 'NOT-OWN', sorted(det))
 PY
-done
+  rm -f /tmp/wt/ev_$id.json /tmp/wt/ev_$id.err
+}
+n=0
+for id in $ids; do one $id & n=$((n+1)); if [ $((n % 4)) -eq 0 ]; then wait; fi; done; wait
